@@ -286,6 +286,11 @@ def install_stats() -> None:
 
     def __init__(self, *a, **k):
         STATS["paths"] += 1
+        try:
+            from xhair import env as _env
+            _env.restore_containers()      # every path starts from the library's post-setup container state
+        except Exception:
+            pass
         return orig_init(self, *a, **k)
 
     statespace.StateSpace.__init__ = __init__
